@@ -95,12 +95,13 @@ def run_history(args):
             raised += 1
     after = snapshot()
     root, text = probe
-    got = [impl.e2e_with(p, root, text) for p in objs]
+    via_dict = seed % 3 == 0      # one probe in three converts through the intermediate dict (parse, to_dict, xml_from_dict)
+    got = [impl.e2e_with(p, root, text, via_dict) for p in objs]
     want = impl.e2e_sx((URI, root, '', text))
     bad = None
     for i, g in enumerate(got):
         if g != want:
-            bad = 'probe on object %d differs from a fresh object' % i
+            bad = 'probe%s on object %d differs from a fresh object' % (' (via xml_from_dict)' if via_dict else '', i)
     if before != after:
         diff = [a[0] for a, b in zip(before, after) if a != b][:3]
         bad = bad or 'module/class-level state changed: %s' % diff
